@@ -44,8 +44,8 @@ class Plan:
         self.bound = ""
         self.not_covered = ""
         self.jobs = 12
-        self.per_harness_timeout = 300
-        self.total_timeout = 1700
+        self.per_harness_timeout = 900
+        self.total_timeout = 2700
         self.mem_gb = 20
         self.slice = None  # for mode slice: dict(name, builder)
         self.rule = ""
